@@ -172,6 +172,114 @@ func stmEncoding(v int, plain []byte) (filter, parms pdf.Object, raw []byte) {
 	return filter, parms, raw
 }
 
+// parm-reference family -------------------------------------------------------
+
+var parmFilterNames = map[byte]pdf.Name{'F': "FlateDecode", 'J': "JBIG2Decode"}
+
+// parmKeys: the entry of the parameter dictionary that holds the reference.
+// /JBIG2Globals is the entry the standard defines with an indirect reference
+// as its value; /G is an entry FlateDecode does not know.
+var parmKeys = map[byte]pdf.Name{'F': "G", 'J': "JBIG2Globals"}
+
+// parmDict is the parameter dictionary with the reference ref inside (nil: no
+// such entry).
+func parmDict(filter byte, ref pdf.Object) pdf.Dict {
+	d := pdf.Dict{}
+	if filter == 'F' {
+		d["Predictor"], d["Columns"] = pdf.Integer(12), pdf.Integer(4)
+	}
+	if ref != nil {
+		d[parmKeys[filter]] = ref
+	}
+	return d
+}
+
+// parmRaw returns the bytes stored for the content plain: Flate with the PNG
+// "Up" predictor for 'F'; for 'J' the content is taken as it is (an opaque
+// JBIG2 body that nothing decodes). In shape '2' ASCIIHexDecode comes on top.
+func parmRaw(ps parmSpec, plain []byte) []byte {
+	raw := plain
+	if ps.filter == 'F' {
+		raw = deflate(pngUp(plain, 4))
+	}
+	if ps.shape == '2' {
+		raw = hexEncode(raw)
+	}
+	return raw
+}
+
+// parmInlined returns /Filter and /DecodeParms of the variant with everything
+// direct (what the shapes with indirect objects amount to).
+func parmInlined(ps parmSpec, pd pdf.Dict) (filter, parms pdf.Object) {
+	name := parmFilterNames[ps.filter]
+	switch ps.shape {
+	case 'd', 'D':
+		return name, pd
+	case '2':
+		return pdf.Array{pdf.Name("ASCIIHexDecode"), name}, pdf.Array{nil, pd}
+	}
+	return pdf.Array{name}, pdf.Array{pd}
+}
+
+// locateParms finds, in a stream dictionary, the parameter dictionary that
+// belongs to the filter name. It reads /Filter and /DecodeParms the way the
+// standard defines them, whatever the spelling: a name or an array of names, a
+// dictionary or an array of dictionaries and nulls, each of them direct or
+// behind a reference (resolve follows a reference; ok = false: unreadable).
+//
+//	hasFilter: the filter chain contains the filter
+//	pd:        its parameter dictionary (nil: none)
+func locateParms(resolve func(pdf.Object) (pdf.Object, bool), d pdf.Dict, name pdf.Name) (pd pdf.Dict, hasFilter, ok bool) {
+	fv, ok := resolve(d["Filter"])
+	if !ok {
+		return nil, false, false
+	}
+	var names []pdf.Object
+	switch f := fv.(type) {
+	case pdf.Name:
+		names = []pdf.Object{f}
+	case pdf.Array:
+		for _, e := range f {
+			e, ok := resolve(e)
+			if !ok {
+				return nil, false, false
+			}
+			names = append(names, e)
+		}
+	}
+	idx := -1
+	for i, n := range names {
+		if n == pdf.Object(name) {
+			idx = i
+			break
+		}
+	}
+	if idx < 0 {
+		return nil, false, true
+	}
+	pv, ok := resolve(d["DecodeParms"])
+	if !ok {
+		return nil, true, false
+	}
+	switch p := pv.(type) {
+	case pdf.Dict:
+		if len(names) == 1 {
+			return p, true, true
+		}
+	case pdf.Array:
+		if idx < len(p) {
+			e, ok := resolve(p[idx])
+			if !ok {
+				return nil, true, false
+			}
+			if ed, isDict := e.(pdf.Dict); isDict {
+				return ed, true, true
+			}
+		}
+	}
+	return nil, true, true
+}
+
 // source ----------------------------------------------------------------------
 
 type source struct {
@@ -302,12 +410,45 @@ func buildSource(g Graph, cfg string) (*source, error) {
 			err = w.Put(ref, s.itemObj(o.It[0], j, 0))
 		case 'S':
 			d := pdf.Dict{}
-			if len(o.It) > 0 {
-				d[stmKey] = s.itemObj(o.It[0], j, 0)
+			pIt, kIt, kPos := o.stmParts()
+			if len(kIt) > 0 {
+				d[stmKey] = s.itemObj(kIt[0], j, kPos)
 			}
 			plain := plainData(j, o.V)
 			raw := plain
 			var lengthRef pdf.Reference
+			if ps, ok := parmOf(o.V); ok {
+				// parm-reference family: the parameter dictionary holds the
+				// reference; the shape decides which parts are indirect objects
+				pd := parmDict(ps.filter, s.itemObj(pIt[0], j, 0))
+				raw = parmRaw(ps, plain)
+				aux := func(obj pdf.Object) (pdf.Reference, error) {
+					ref := w.Alloc()
+					s.numAux++
+					return ref, w.Put(ref, obj)
+				}
+				f, p := parmInlined(ps, pd)
+				switch ps.shape {
+				case 'D':
+					p, err = aux(pd)
+				case 'A':
+					var r pdf.Reference
+					r, err = aux(pd)
+					p = pdf.Array{r}
+				case 'I':
+					p, err = aux(pdf.Array{pd})
+				case 'B':
+					var r pdf.Reference
+					r, err = aux(pd)
+					if err == nil {
+						p, err = aux(pdf.Array{r})
+					}
+				}
+				if err != nil {
+					return nil, err
+				}
+				d["Filter"], d["DecodeParms"] = f, p
+			}
 			switch o.V {
 			case stmFlate:
 				d["Filter"] = pdf.Name("FlateDecode")
@@ -387,11 +528,30 @@ func (s *source) verify() error {
 			if !stmDecodable(o.V) {
 				continue // /Filter and /DecodeParms do not fit together: nothing to decode
 			}
-			data, err := pdf.ReadAll(r, nil, stm, 1<<20)
+			if ps, ok := parmOf(o.V); ok {
+				// the reference inside the parameter dictionary is there literally
+				pIt, _, _ := o.stmParts()
+				pd, hasFilter, ok := locateParms(func(x pdf.Object) (pdf.Object, bool) {
+					v, err := pdf.Resolve(r, x)
+					return v, err == nil
+				}, stm.Dict, parmFilterNames[ps.filter])
+				if !ok || !hasFilter || pd == nil || pd[parmKeys[ps.filter]] != s.itemObj(pIt[0], j, 0) {
+					return fmt.Errorf("object %d (%s): the parameter dictionary reads back as %v, want /%s %v inside", j, o, pd, parmKeys[ps.filter], s.itemObj(pIt[0], j, 0))
+				}
+			}
+			var data []byte
+			want := plainData(j, o.V)
+			if stmRawOnly(o.V) {
+				ps, _ := parmOf(o.V)
+				want = parmRaw(ps, want)
+				data, err = fileTarget{r}.streamRaw(stm)
+			} else {
+				data, err = pdf.ReadAll(r, nil, stm, 1<<20)
+			}
 			if err != nil {
 				return fmt.Errorf("object %d: %w", j, err)
 			}
-			if !bytes.Equal(data, plainData(j, o.V)) {
+			if !bytes.Equal(data, want) {
 				return fmt.Errorf("object %d: stream data reads back differently", j)
 			}
 			continue
@@ -510,6 +670,7 @@ type step struct {
 	ref    pdf.Reference // 'R': returned reference; 'C': object holding the returned value; 'D': fresh object
 	direct pdf.Object    // 'C': the returned value (translated, still in memory)
 	err    error
+	trans  [][2]pdf.Reference // the copier's translation table after the call (fingerprints only)
 }
 
 type execution struct {
@@ -625,6 +786,7 @@ func execute(s *source, prog []Op, tgtCfg string) (ex *execution) {
 			nRedirect++
 			c.Redirect(s.refs[op.J], st.ref)
 		}
+		st.trans = pdf.VerifCopierTrans(c)
 		ex.steps = append(ex.steps, st)
 	}
 	ex.trans = pdf.VerifCopierTrans(c)
